@@ -180,6 +180,14 @@ def env_c17(ops):
         for k in ('table', 'index'):
             if k in o and len(o[k]) < 3:
                 return False
+        # index names inside CreateTable / UpdateTable requests, the name of an index to delete
+        for ix in (o.get('gsi') or []) + (o.get('lsi') or []) + ([o['create']] if isinstance(o.get('create'), dict) else []):
+            if len(ix.get('name', 'xxx')) < 3:
+                return False
+        if isinstance(o.get('delete'), str) and len(o['delete']) < 3:
+            return False
+        if o.get('op') == 'batch_write' and (not o.get('requests') or any(len(tn) < 3 for tn in o['requests'])):
+            return False      # SDK v1 refuses a batch without tables (and short names inside the single requests)
     return True
 
 
